@@ -156,6 +156,22 @@ def grammarOk (m : Msg) : Bool :=
     match a with | b :: f :: c :: r => b.isInt && f.isInt && c.isInt && complTail r | _ => false
   else if m.cmd = "/b_free" ∨ m.cmd = "/b_zero" ∨ m.cmd = "/b_close" then
     match a with | b :: r => b.isInt && complTail r | _ => false
+  else if m.cmd = "/b_read" then
+    -- bufnum, path, file start frame, number of frames, buffer start frame, leave open, [completion]
+    match a with
+    | b :: p :: fs :: n :: bs :: lo :: r =>
+      b.isInt && p.isStr && fs.isInt && n.isInt && bs.isInt && lo.isFlag && complTail r
+    | _ => false
+  else if m.cmd = "/b_allocRead" then
+    match a with
+    | b :: p :: fs :: n :: r => b.isInt && p.isStr && fs.isInt && n.isInt && complTail r
+    | _ => false
+  else if m.cmd = "/b_write" then
+    -- bufnum, path, header format, sample format, number of frames, start frame, leave open, [completion]
+    match a with
+    | b :: p :: h :: sf :: n :: st :: lo :: r =>
+      b.isInt && p.isStr && h.isStr && sf.isStr && n.isInt && st.isInt && lo.isFlag && complTail r
+    | _ => false
   else if m.cmd = "/b_set" then
     match a with | b :: r => b.isInt && rep2 Arg.isInt Arg.isNum r | _ => false
   else if m.cmd = "/b_setn" then
